@@ -179,7 +179,7 @@ def findings_of(r, meta):
     for l in lines:
         if l.startswith("dup rc=") and "rc=0" not in l:
             out.append(("dup-fails", "hwloc_topology_dup failed on a loaded topology: " + l, False))
-        elif l.startswith("obscmp DIFF") and lines[lines.index(l) - 1].startswith(("uninit", "allocseq", "seq ", "share", "overlap", "firstq")):
+        elif l.startswith("obscmp DIFF") and lines[lines.index(l) - 1].startswith(("uninit", "allocseq", "seq ", "share", "overlap", "firstq", "firstq0")):
             out.append(("dup-not-equal", "the copy does not report what the original reports: " + l[:400], False))
         elif l.startswith(("opcmp DIFF", "obscmp DIFF")) and twin_ok and lines[lines.index(l) - (1 if l.startswith("opcmp") else 2)].startswith("both "):
             # identical histories on the original and on the copy (no object created since the dup): they must stay identical
@@ -189,8 +189,10 @@ def findings_of(r, meta):
             out.append(("twin-diverges:" + opname, "the same call on the original and on the copy answers differently / leaves different observations after identical histories (%s): %s" % (step[nboth - 1] if 0 < nboth <= len(step) else "?", l[:500]), False))
         elif l.startswith("dupdup ") and " same" not in l:
             out.append(("dup-of-dup-not-equal", "a duplicate of the duplicate does not report what the original reports: " + l[:400], False))
-        elif l.startswith("firstq ") and " same" not in l:
-            out.append(("first-query-differs:" + l.split(" ")[1], "an accessor used as the FIRST query on a fresh duplicate answers differently from the original: " + l[:500], False))
+        elif l.startswith("pubdup ") and " same" not in l:
+            out.append(("public-dup-not-equal", "hwloc_topology_dup (duplicate + refresh of the copy) does not report what the original reports: " + l[:400], False))
+        elif l.startswith(("firstq ", "firstq0 ")) and " same" not in l:
+            out.append(("first-query-differs:" + l.split(" ")[1] + (":unrefreshed-duplicate" if l.startswith("firstq0") else ""), "an accessor used as the FIRST query on a fresh duplicate answers differently from the original: " + l[:500], False))
         elif l.startswith("nogpcmp DIFF") and not any(h.startswith("mut ") for h in r.get("script", [])):
             step = [h for h in r.get("script", []) if h.startswith("both ")]
             nboth = sum(1 for x in lines[:lines.index(l)] if x.startswith("both "))
